@@ -267,6 +267,97 @@ def r17f(ctx):
         ctx.report("R17f", im, im.node, "import loop", "import_from_csv no longer appends one row per CSV line in order")
 
 
+RAW_SOURCES = {"_get_rows", "_get_cells", "_get_columns"}
+ORDER_FREE = {"all", "any", "max", "min", "set", "frozenset"}
+
+
+def r17h(ctx):
+    """Stored items are not logical items.
+
+    `_get_rows()`, `_get_cells()` and `_get_columns()` return one wrapper per XML element; an element with a repeat count stands for several
+    logical rows / cells / columns.  Applying an operation to every stored element is fine (it applies to all its repetitions); *collecting*
+    one entry per stored element into a positional structure (append/extend/insert, yield, list comprehension, list(), enumerate) is not,
+    unless the loop also reads the element's repeat count.  Whole-table transformations (transpose, exports) must read logical items through the
+    expanding traversals.  Rule over every loop and comprehension of Table / Row / MDTable whose source is a raw getter.
+    """
+    repo = ctx.repo
+    ctx.rule("R17h", "no positional collection (append/yield/list/enumerate) of one entry per stored row, cell or column without reading its repeat count", floor=10)
+
+    def raw(e, aliases):
+        while isinstance(e, ast.Call) and isinstance(e.func, ast.Name) and e.func.id in ("reversed", "list", "iter", "tuple", "sorted") and e.args:
+            e = e.args[0]
+        if isinstance(e, ast.Call) and call_name(e) in RAW_SOURCES:
+            return call_name(e)
+        if isinstance(e, ast.Subscript):
+            return raw(e.value, aliases)
+        if isinstance(e, ast.Name) and e.id in aliases:
+            return aliases[e.id]
+        return None
+
+    def reads_repeat(nodes, var):
+        return any(isinstance(x, ast.Attribute) and x.attr in ("repeated", "_set_repeated") and isinstance(x.value, ast.Name) and x.value.id == var
+                   for n in nodes for x in ast.walk(n))
+
+    def mentions(e, names):
+        return any(isinstance(x, ast.Name) and x.id in names for x in ast.walk(e))
+
+    n = 0
+    for cname in ("Table", "Row", "MDTable"):
+        c = repo.cls(cname)
+        for name, fs in c.methods.items():
+            f = fs[0]
+            aliases = {}
+            for a in walk_no_nested(f.node):
+                if isinstance(a, ast.Assign) and len(a.targets) == 1 and isinstance(a.targets[0], ast.Name) and raw(a.value, aliases):
+                    aliases[a.targets[0].id] = raw(a.value, aliases)
+            parents = {}
+            for x in ast.walk(f.node):
+                for ch in ast.iter_child_nodes(x):
+                    parents[id(ch)] = x
+            for node in walk_no_nested(f.node):
+                if isinstance(node, ast.For) and isinstance(node.target, ast.Name):
+                    src = raw(node.iter, aliases) or (raw(node.iter.args[0], aliases) if isinstance(node.iter, ast.Call) and call_name(node.iter) == "enumerate" and node.iter.args else None)
+                    if not src:
+                        continue
+                    n += 1
+                    var = node.target.id
+                    names = {var}
+                    for _ in range(2):
+                        for a in ast.walk(node):
+                            if isinstance(a, ast.Assign) and len(a.targets) == 1 and isinstance(a.targets[0], ast.Name) and mentions(a.value, names):
+                                names.add(a.targets[0].id)
+                    coll = []
+                    for x in [y for st in node.body for y in ast.walk(st)]:
+                        if isinstance(x, ast.Call) and isinstance(x.func, ast.Attribute) and x.func.attr in ("append", "extend", "insert") and isinstance(x.func.value, ast.Name) \
+                                and x.func.value.id not in names and any(mentions(a, names) for a in x.args):
+                            coll.append(x)
+                        elif isinstance(x, (ast.Yield, ast.YieldFrom)) and x.value is not None and mentions(x.value, names):
+                            coll.append(x)
+                    ok = not coll or reads_repeat(node.body, var)
+                    ctx.instance("R17h", f"{f.file}:{f.ident}", f"for {var} in {norm(node.iter, 40)}: " + ("applies an operation per stored element" if not coll else
+                                 f"collects {norm(coll[0], 40)} " + ("and reads the repeat count" if ok else "WITHOUT reading the repeat count")), ok=ok, nontrivial=bool(coll), line=node.lineno)
+                    if not ok:
+                        ctx.report("R17h", f, node, f"for {var} in {norm(node.iter, 40)}: {norm(coll[0], 50)}",
+                                   f"{cname}.{name} builds one entry per stored {src[5:-1]} element: an element repeated N times stands for N logical {src[5:]}, so the result is "
+                                   f"shorter than the table (rows or cells are lost by a transformation built on it); read them through traverse()/get_rows()/get_cells()")
+                elif isinstance(node, (ast.ListComp, ast.GeneratorExp, ast.SetComp, ast.DictComp)):
+                    g = node.generators[0]
+                    src = raw(g.iter, aliases)
+                    if not src or not isinstance(g.target, ast.Name):
+                        continue
+                    n += 1
+                    par = parents.get(id(node))
+                    order_free = isinstance(node, ast.SetComp) or (isinstance(par, ast.Call) and call_name(par) in ORDER_FREE and isinstance(par.func, ast.Name))
+                    elt = node.elt if not isinstance(node, ast.DictComp) else node.value
+                    ok = order_free or reads_repeat([elt] + list(g.ifs), g.target.id)
+                    ctx.instance("R17h", f"{f.file}:{f.ident}", f"{norm(node, 60)}: " + ("order- and count-free aggregate" if order_free else "positional"), ok=ok, line=node.lineno)
+                    if not ok:
+                        ctx.report("R17h", f, node, norm(node, 60),
+                                   f"{cname}.{name} builds one entry per stored {src[5:-1]} element without its repeat count: repeated elements count once")
+    if n == 0:
+        raise AnalysisError("R17h: no loop over stored rows/cells/columns found")
+
+
 def run(ctx):
     tom = run_tom(ctx.repo)
     r17abc(ctx)
@@ -274,6 +365,7 @@ def run(ctx):
     r17e(ctx, tom)
     r17f(ctx)
     r17g(ctx)
+    r17h(ctx)
 
 
 from ..selftest import Seed, unparse_seed  # noqa: E402
@@ -281,6 +373,10 @@ from ..selftest import Seed, unparse_seed  # noqa: E402
 _T = "src/odfdo/table.py"
 _R = "src/odfdo/row.py"
 SEEDS = [
+    Seed("transpose reads the stored row elements", "fault", _T, "        if coord is None:\n            for row in self.traverse():\n                data.append(list(row.traverse()))",
+         "        if coord is None:\n            for row in self._get_rows():\n                data.append(list(row.traverse()))", "R17h"),
+    Seed("Row.get_sub_elements reads the stored cell elements", "fault", _R, "        return [cell.children for cell in self.traverse()]", "        return [cell.children for cell in self._get_cells()]", "R17h"),
+    Seed("optimize_width takes the maximum of a list", "neutral", _T, "        return max(row.minimized_width() for row in self._get_rows())", "        return max([row.minimized_width() for row in self._get_rows()])"),
     Seed("set_span writes the span attributes before checking", "fault", _T,
          "        # check for previous span\n        good = True\n        # Check boundaries and empty cells",
          "        # check for previous span\n        good = True\n        self.get_cell((x, y), clone=False).set_attribute(\"table:number-columns-spanned\", str(z - x + 1))\n        # Check boundaries and empty cells", "R17a"),
